@@ -77,6 +77,7 @@ CustomOutcomes == {"absent", "value", "empty", "error"}   \* absent = no custom 
 Scenario(fam, proto, kind, probe, ph, host, custom, ua, probeText, method, path, lines) ==
   [fam |-> fam, proto |-> proto, kind |-> kind, probe |-> probe, preserveHost |-> ph, host |-> host,
    custom |-> custom, ua |-> ua, probeText |-> probeText, method |-> method, path |-> path, lines |-> lines,
+   pre |-> <<>>,            \* client lines that travel in front of the User-Agent line(s)
    scheme |-> "https",      \* HTTP/2 only: the :scheme pseudo-header the client chose (the connection is TLS whatever it says)
    prefix |-> "",           \* path of the configured forward URL (a backend mounted under a prefix)
    wantTarget |-> path]     \* request-target the backend must see: forward prefix, then the client's target octet for octet
@@ -107,6 +108,14 @@ Scenarios ==
   \* C15: probe predicate
   { Scenario("probe", p, "normal", pr, FALSE, "vf.test", "absent", ua, pt, m, pa, <<>>) :
       p \in Protos, pr \in BOOLEAN, ua \in UAs, pt \in BOOLEAN, m \in {"GET", "POST"}, pa \in {"/healthz", "/a?x=kube-probe/1", "//healthz/./x"} }   \* the last one: a path that is legal but not in canonical form
+  \cup
+  \* C15: a field name repeated around the User-Agent line (the decision is the first User-Agent line's, whatever stands before and after it)
+  { [Scenario("probe", p, "normal", pr, FALSE, "vf.test", "absent", c[2], FALSE, "GET", "/healthz", c[3]) EXCEPT !.pre = c[1]] :
+      p \in Protos, pr \in BOOLEAN,
+      c \in { << <<L("X-Multi", "t1", "lower")>>, <<"curl/8">>, <<L("X-Multi", "kube-probe/1.29", "lower")>> >>,
+              << <<L("X-Multi", "text/html", "lower")>>, <<"kube-probe/1.26">>, <<L("X-Multi", "x/y", "lower")>> >>,
+              << <<L("X-Multi", "kube-probe/1.0", "lower"), L("X-Keep", "k", "canon")>>, <<"curl/8">>, <<L("X-Multi", "b", "canon"), L("X-Multi", "kube-probe/1.1", "lower")>> >>,
+              << <<L("X-Multi", "a", "lower"), L("X-Multi", "b", "lower")>>, <<"kube-probe/1.26">>, <<L("X-Keep", "k", "canon"), L("X-Multi", "c", "lower")>> >> } }
   \cup
   \* C08 request-target clause: method, path and query are opaque to the proxy and must arrive as sent
   { Scenario("target", p, "normal", FALSE, FALSE, "vf.test", "absent", <<"curl/8">>, FALSE, m, pa, <<>>) :
@@ -143,7 +152,8 @@ Set(h, k, v) == Del(h, k) \o << <<k, v>> >>
 InLines == [n \in 1..Len(req.lines) |-> <<req.lines[n].k, req.lines[n].v>>]
 UALines == [n \in 1..Len(req.ua) |-> <<"User-Agent", req.ua[n]>>]
 ProbeTextLine == IF req.probeText THEN << <<"X-Note", "kube-probe/1.26">> >> ELSE <<>>
-InH == UALines \o ProbeTextLine \o InLines      \* what the handler sees (canonical keys)
+PreLines == [n \in 1..Len(req.pre) |-> <<req.pre[n].k, req.pre[n].v>>]
+InH == PreLines \o UALines \o ProbeTextLine \o InLines      \* what the handler sees (canonical keys)
 
 Injectors == IF req.custom = "absent" THEN DefaultInjectors ELSE DefaultInjectors \o <<CUSK>>
 
